@@ -510,6 +510,7 @@ package fsm
 //@ func (*StateMachine).HandleMessageEditStake
 //@   callsite AccountSub requires[owner] addrOf(callee.address) == bytes(msg.Signer) && callee.amountToSub == (msg.Amount > resultof(GetValidator).StakedAmount ? msg.Amount - resultof(GetValidator).StakedAmount : 0)
 //@   callsite UpdateValidatorStake requires[redirect] bytes(callee.val.Output) != bytes(resultof(GetValidator).Output) ==> bytes(msg.Signer) == bytes(resultof(GetValidator).Output)
+//@   callsite UpdateValidatorStake requires[status] callee.val.MaxPausedHeight == resultof(GetValidator).MaxPausedHeight && callee.val.UnstakingHeight == resultof(GetValidator).UnstakingHeight && callee.val.Delegate == resultof(GetValidator).Delegate
 //@   callsite UpdateValidatorStake requires[same] bytes(callee.val.Address) == bytes(resultof(GetValidator).Address) && callee.val.StakedAmount == resultof(GetValidator).StakedAmount && callee.amountToAdd == (msg.Amount > resultof(GetValidator).StakedAmount ? msg.Amount - resultof(GetValidator).StakedAmount : 0)
 //@   ensures[conserve] result == nil ==> drift(s) == old(drift(s)) && supTotal(s) == old(supTotal(s))
 // subsidy, order creation, DEX orders and deposits: the authorized address pays, a pool receives the same amount
@@ -929,3 +930,26 @@ package fsm
 // (the replay floor of Ethereum-wrapped transactions), the balance and the address are never changed by it.
 //@ func (*StateMachine).clearAccountVestingIfFullyVested
 //@   ensures[onlyschedule] account != nil ==> account.Nonce == old(account.Nonce) && account.Amount == old(account.Amount) && account.Address == old(account.Address)
+
+// ---- C02 / C01: the two committees published to nested chains --------------------------------------------------------
+// RootChainInfo carries the committee in force at the published root height AND the one at the height before it; nested
+// chains judge certificates that name either root height against them. With H the effective height (the tip when the
+// caller passes 0), the first historical view is that of H and the second that of H-1 - never of some other height.
+//@ func (*StateMachine).LoadRootChainInfo
+//@   callsite TimeMachine@1 requires[current] callee.height == (old(height) == 0 ? old(s.height) : old(height))
+//@   callsite TimeMachine@2 requires[previous] (old(height) == 0 ? old(s.height) : old(height)) >= 2 ==> callee.height == (old(height) == 0 ? old(s.height) : old(height)) - 1
+
+// ---- C04: importing open sell orders at genesis ------------------------------------------------------------------------
+// Every imported order raises the supply tracker being built and the escrow pool of its chain by the same amount - on
+// top of whatever that pool already holds (the pools section of a genesis file is loaded first and is already counted).
+//@ func (*StateMachine).SetOrderBooks
+//@   loop 1 invariant[conserve] poolSum(s) - supply.Total == old(poolSum(s) - supply.Total) && acctSum(s) == old(acctSum(s)) && stakeSum(s) == old(stakeSum(s))
+//@   loop 2 invariant[conserve] poolSum(s) - supply.Total == old(poolSum(s) - supply.Total) && acctSum(s) == old(acctSum(s)) && stakeSum(s) == old(stakeSum(s))
+//@   ensures[conserve] result == nil ==> poolSum(s) - supply.Total == old(poolSum(s) - supply.Total) && acctSum(s) == old(acctSum(s)) && stakeSum(s) == old(stakeSum(s))
+
+// ---- C20: same-block DEX operations that do not fit the locked batch stay pending -----------------------------------
+// The end-block merge moves as many of the next batch's operations into the batch locked in this block as the per-batch
+// caps allow; the rest stays in the next batch. The next batch's record is deleted only when NOTHING is left in it -
+// orders and deposits left behind in a deleted batch would keep their escrow in the holding pool for ever.
+//@ func (*StateMachine).IncludeSameBlockDex$2
+//@   callsite Delete requires[drained] len(resultof(GetDexBatch).Orders) == 0 && len(resultof(GetDexBatch).Deposits) == 0 && len(resultof(GetDexBatch).Withdrawals) == 0
